@@ -14,6 +14,8 @@ import (
 	"bytes"
 	"fmt"
 	"io"
+	"os"
+	"syscall"
 
 	"seehuhn.de/go/postscript/afm"
 	"seehuhn.de/go/postscript/type1"
@@ -92,7 +94,29 @@ func runC13(r *rt.Runner) {
 				if rng.IntN(4) == 0 {
 					fr.Chunks = randChunks(rng)
 				}
+				switch rng.IntN(5) {
+				case 0:
+					fr.Err = mon.ErrInjectedTemporary
+				case 1:
+					fr.Err = &os.PathError{Op: "read", Path: "font", Err: syscall.EINTR}
+				case 2:
+					fr.Err = syscall.EAGAIN
+				}
 				var src io.Reader = fr
+				if kind == kType1 && rng.IntN(3) == 0 {
+					// a seekable source (type1.Read looks at its first byte and seeks back)
+					sfr := &mon.SeekFaultReader{FaultReader: *fr}
+					_, err := runEntry(env, kind, sfr)
+					c.Eval()
+					if sfr.Delivered {
+						oneShot++
+						if err == nil {
+							c.Violation(fmt.Sprintf("one-shot-read-fault-swallowed|%s", kind),
+								fmt.Sprintf("%s: the seekable reader reported an error (%v) once after %d of %d bytes, but the call returned a nil error", kind, sfr.Err, off, len(it.data)), "")
+						}
+					}
+					continue
+				}
 				if rng.IntN(3) == 0 {
 					// behind a bufio.Reader (an io.ByteReader, too), which hands an
 					// error of its source on once and then reads on
